@@ -11,8 +11,9 @@ from typing import Any, Dict, List, Optional, Tuple
 from vf import simnet, wire
 
 ENUM = '_services._dns-sd._udp.local.'
-TYPES = ['_http._tcp.local.', '_ipp._tcp.local.', '_printer._sub._http._tcp.local.']
-HOSTS = ['ash.local.', 'Birch.local.', 'cedar.local.']
+TYPES = ['_http._tcp.local.', '_ipp._tcp.local.', '_printer._sub._http._tcp.local.', '_IPPprinter._tcp.local.']
+HOSTS = ['ash.local.', 'Birch.local.', 'cedar.local.', 'gro\u00df.local.']      # (sharp s: lower() keeps it, casefold() does not)
+TXT_128 = b'\x7fk=' + b'x' * 125                                                # a TXT rdata of exactly 128 octets
 ADDR_SETS = {
     'v4': (['10.0.0.1'], []),
     'v6': ([], ['fe80::1']),
@@ -32,10 +33,11 @@ def low(s: str) -> str:
 
 
 def recase(s: str, variant: int) -> str:
+    """Another spelling of the same DNS name: only the ASCII letters change case (RFC 6762 section 16)."""
     if variant % 3 == 1:
-        return s.upper()
+        return ''.join(chr(ord(c) - 32) if 'a' <= c <= 'z' else c for c in s)
     if variant % 3 == 2:
-        return s.swapcase()
+        return ''.join(chr(ord(c) - 32) if 'a' <= c <= 'z' else (chr(ord(c) + 32) if 'A' <= c <= 'Z' else c) for c in s)
     return s
 
 
@@ -73,7 +75,7 @@ def service_spec(k: int, type_i: int, host_i: int, addrs: str, name_variant: int
                  host_ttl: int = 120, other_ttl: int = 4500) -> dict:
     type_ = TYPES[type_i]
     base = '_http._tcp.local.' if type_i == 2 else type_
-    inst = ['Alpha', 'beta', 'Gamma Ray', 'delta'][k % 4] + '.' + base
+    inst = (['Alpha', 'beta', 'Gamma Ray', 'delta'][k % 4] if name_variant == 0 else ['Stra\u00dfe 7', 'Fu\u00dfball'][k % 2]) + '.' + base
     return {'sid': k, 'type': type_, 'name': inst, 'host': HOSTS[host_i], 'addrs': addrs, 'port': port, 'txt': txt.hex(),
             'host_ttl': host_ttl, 'other_ttl': other_ttl}
 
@@ -513,14 +515,15 @@ def gen_services(rng: random.Random) -> List[dict]:
     used_names = set()
     host_addrs: Dict[int, str] = {}
     for k in range(n):
-        type_i = rng.choice([0, 0, 1, 2])
-        host_i = rng.choice([0, 0, 1, 2])
+        type_i = rng.choice([0, 0, 0, 1, 1, 2, 2, 3])
+        host_i = rng.choice([0, 0, 0, 1, 1, 2, 2, 3])
         if host_i in host_addrs and rng.random() < 0.6:
             addrs = host_addrs[host_i]
         else:
             addrs = rng.choice(['v4', 'v4', 'v6', 'dual', 'two4', 'other4'])
         host_addrs.setdefault(host_i, addrs)
-        sp = service_spec(k, type_i, host_i, addrs, port=rng.choice([80, 8080]), txt=rng.choice([b'\x03a=1', b'', b'\x05k=val']),
+        sp = service_spec(k, type_i, host_i, addrs, name_variant=1 if rng.random() < 0.12 else 0,
+                          port=rng.choice([80, 80, 8080, 8080, 128]), txt=rng.choice([b'\x03a=1', b'', b'\x05k=val'] * 3 + [TXT_128]),
                           host_ttl=httl, other_ttl=ottl)
         if low(sp['name']) in used_names:
             continue
@@ -618,6 +621,38 @@ def gen_resp(rng: random.Random, sid: str, focus: str, thorough: bool = False) -
         else:
             t += rng.choice(gaps) if rng.random() < 0.8 else rng.randint(0, 2500)
         steps.append({'op': 'at', 't': t})
+        if live and rng.random() < {'c12': 0.12, 'c11': 0.12}.get(focus, 0.03):
+            # a burst inside one aggregation window: two queries close together (two answer groups wait for the 500 ms
+            # deadline of the first), a third -- sometimes a fourth -- just before that deadline, each for another record
+            cands = []
+            for x in live:
+                cands += [(x['type'], wire.T_PTR), (x['name'], wire.T_TXT), (ENUM, wire.T_PTR)]
+            cands = sorted(set(cands))
+            rng.shuffle(cands)
+            legacy = rng.random() < {'c11': 0.6, 'c12': 0.15}.get(focus, 0.3)
+            offs = [0, rng.choice([5, 20, 50, 100]), rng.choice([380, 450, 481, 485, 490, 499])] + ([rng.choice([505, 520, 600])] if rng.random() < 0.4 else [])
+            t0b = t
+            for (qn, qt), off in zip(cands, offs):
+                t = t0b + off
+                st: Dict[str, Any] = {'op': 'query', 'qs': [{'name': qn, 'type': qt, 'sp': rng.randint(0, 2), 'qu': False}],
+                                      'qid': rng.randint(1, 65535), 'src': rng.choice(['10.0.0.9', '10.0.0.23'])}
+                if legacy:
+                    st['port'] = 40000
+                steps += [{'op': 'at', 't': t}, st]
+            continue
+        if focus in ('c12', 'c08', 'c03') and rng.random() < 0.06 and [x for x in live if busy[x['sid']] <= t]:
+            # an answer waits in the aggregation queue (enumeration / type pointer) while the application updates the service
+            sp = dict(rng.choice([x for x in live if busy[x['sid']] <= t]))
+            steps.append({'op': 'query', 'qs': [{'name': rng.choice([ENUM, sp['type']]), 'type': wire.T_PTR, 'sp': rng.randint(0, 2), 'qu': False}],
+                          'qid': rng.randint(1, 65535), 'src': '10.0.0.23'})
+            t += rng.choice([5, 15, 100, 300])
+            steps.append({'op': 'at', 't': t})
+            i = live.index(next(x for x in live if x['sid'] == sp['sid']))
+            busy[sp['sid']] = t + 500
+            sp['port'] = rng.choice([80, 8080, 9999])
+            live[i] = sp
+            steps.append({'op': 'upd', 'svc': sp, 'same_object': rng.random() < 0.5})
+            continue
         r = rng.random()
         p_unreg = {'c08': 0.25, 'c03': 0.15}.get(focus, 0.06)
         # API calls on a service only once its previous announcement / goodbye sequence is over (property domain:
